@@ -783,3 +783,14 @@ v("c08-scalar-definition-through-helper", "C08", "PRINTER-COVERAGE", L + "printe
   "    def leave_scalar_type_definition(node: PrintedNode, *_args: Any) -> str:\n        return _definition(\"scalar\", node)\n",
   expect="silent", extra_edits=[{"file": L + "printer.py", "old": "def block(strings: Strings | None) -> str:",
   "new": "def _definition(keyword: str, node: PrintedNode, *parts: str) -> str:\n    return wrap(\"\", node.description, \"\\n\") + join(\n        (keyword, node.name, join(node.directives, \" \"), *parts), \" \"\n    )\n\n\ndef block(strings: Strings | None) -> str:"}])
+
+# -- round 5: C20 (and unfix of 3e32c89) -------------------------------------------------------------------------
+v("c20-unfix-malformed-transitive-interface", "C20", "UNVALIDATED-ELEMENT", T + "validate.py",
+  "            if is_interface_type(transitive) and transitive not in type_interfaces:\n", "            if transitive not in type_interfaces:\n")
+v("c20-transitive-check-guard-clause", "C20", "UNVALIDATED-ELEMENT", T + "validate.py",
+  "            if is_interface_type(transitive) and transitive not in type_interfaces:\n", "            if not is_interface_type(transitive):\n                continue\n            if transitive not in type_interfaces:\n",
+  expect="silent")
+v("c20-required-deprecated-by-truthiness", "C20", "OPTIONAL-TRUTHINESS", T + "validate.py",
+  "                if is_required_argument(arg) and arg.deprecation_reason is not None:\n", "                if is_required_argument(arg) and arg.deprecation_reason:\n")
+v("c20-sdl-flag-becomes-schema-flag", "C20", "ASSUME-VALID-FRESH", U + "build_ast_schema.py",
+  "        empty_schema_kwargs, document_ast, assume_valid\n", "        empty_schema_kwargs, document_ast, assume_valid or assume_valid_sdl\n")
